@@ -196,7 +196,14 @@ pub fn c14(run: &mut Run) -> Stats {
                 alphabet.push(c);
             }
         }
-        let hays: Vec<(Hay, Vec<u16>, Vec<usize>)> = if name == "lit" { sweep::lit_hays() } else { enumerate::all_hays(&alphabet, if thorough { 4 } else { 3 }) }
+        let hays: Vec<(Hay, Vec<u16>, Vec<usize>)> = if name == "lit" {
+            sweep::lit_hays()
+        } else if name == "icase" {
+            // the fold partners themselves (all BMP, so the UCS-2 entry point is compared too)
+            enumerate::all_hays(&sp.alphabet, if thorough { 3 } else { 2 })
+        } else {
+            enumerate::all_hays(&alphabet, if thorough { 4 } else { 3 })
+        }
             .into_iter()
             .map(|h| {
                 let (u, o) = enc16(&h);
